@@ -319,7 +319,7 @@ def check_numbering(chk) -> Optional[bool]:
                 want_pair[number[a] - 1], want_pair[number[b] - 1] = number[b], number[a]
             got_pair = [e.pair for e in entries]
             model = f"chains {lab.ref_sequences(False)}, numbers A:1,2,3,6,7,(8 water),10 B:21,22,25,26, bonded 1-2-3, 6-7-10, 21-22; {tag}"
-            chk.expect(got_idx == list(range(1, len(seq) + 1)), "numbering-fact", fi.where, f"entries are numbered 1..{len(seq)} in order ({tag})", f"BPSEQ entries are numbered {got_idx}, not 1..{len(seq)} ({model})", K(fi, "numbering-fact:index"), expected=list(range(1, len(seq) + 1)), found=got_idx)
+            chk.expect(got_idx == list(range(1, len(entries) + 1)), "numbering-fact", fi.where, f"the {len(entries)} entries are numbered 1, 2, ... in order ({tag})", f"the {len(entries)} BPSEQ entries are numbered {got_idx}, not 1, 2, ... in order: every stored entry (residue or placeholder) must take the next number ({model})", K(fi, "numbering-fact:index"), expected=list(range(1, len(entries) + 1)), found=got_idx)
             chk.expect(
                 got_seq == seq,
                 "numbering-fact",
